@@ -346,7 +346,7 @@ pub fn model_call(host: Host, ps: &[P], args: &[A], own_offset: u32, furi: &mut 
         }
         let a = &args[ai]; ai += 1;
         let this_bit = bit; bit += 1;
-        let mut set_mask = |m: &mut CallModel| {
+        let set_mask = |m: &mut CallModel| {
             if this_bit < 16 { m.mask |= 1 << this_bit; } else { m.needs.push(Need::MaskOverflow); }
         };
         if a.is_reg() && !host.has_regs() { m.error = Some("language without registers"); }
@@ -1284,7 +1284,7 @@ fn plan_anm(thorough: bool) -> Plan {
     let alpha = base_alphabet();
     // A: exhaustive short signatures
     for ps in all_seqs(&alpha, if thorough { 4 } else { 3 }) {
-        let depth = if thorough && ps.len() <= 3 { Depth::Cross } else { Depth::Full };
+        let depth = if thorough { Depth::Cross } else { Depth::Full };
         add_sig(&mut plan, &mut seen, ps, "short", depth, &mut g, cap);
     }
     // B: attribute variants alone and next to each context symbol
@@ -1314,7 +1314,7 @@ fn plan_anm(thorough: bool) -> Plan {
         add_sig(&mut plan, &mut seen, ps, "len16", Depth::Long, &mut g, cap);
     } }
     let two: &[P] = if thorough { &others } else { &small };
-    for i in 0..16 { for j in i + 1..16 { if !thorough && !(j == i + 1 || i == 0 || j == 15) { continue; } for a in two { for b in two {
+    for i in 0..16 { for j in i + 1..16 { for a in two { for b in two {
         let mut ps = vec![s.clone(); 16]; ps[i] = a.clone(); ps[j] = b.clone();
         add_sig(&mut plan, &mut seen, ps, "len16", Depth::Long, &mut g, cap);
     } } } }
@@ -1442,7 +1442,7 @@ pub fn run(tier: &str) -> Report {
          {} attribute variants alone / before / after 7 context letters{}; length-16 all-S signatures with 1 position over the 16 other letters and 2 positions over {}; 17/18/20(+padding) parameters; \
          MSG th08 string signatures; TH06 timeline arg0 signatures; 8 intrinsic kinds bound to every arrangement of their operands with ot/to/o at any boundary and one padding at any position.  Argument lists: default list, every single boundary-value deviation, registers at 1 and 2 positions{}",
         if thorough { 4 } else { 3 }, attr_variants().len(), if thorough { " (+ triples and pairs of variants)" } else { "" },
-        if thorough { "the 16 other letters" } else { "{_ - s f} (position pairs adjacent or touching an end)" }, if thorough { ", value deviation x register elsewhere (length <= 3 and attribute family)" } else { "" });
+        if thorough { "the 16 other letters" } else { "{_ - s f}" }, if thorough { ", value deviation x register elsewhere (short and attribute families)" } else { "" });
     rep.extra.insert("signatures_valid".into(), json!(n_sigs));
     rep.extra.insert("signatures_rejected_expected".into(), json!(n_rejects));
     rep.extra.insert("families".into(), json!(total.families.iter().map(|(k, v)| json!({"family": k, "signatures": v.0, "cases": v.1})).collect::<Vec<_>>()));
